@@ -200,7 +200,7 @@ func c11State(c *Ctx, n *Node) []Violation {
 }
 
 func checkC11(e *RunEnv) *CheckResult {
-	msgs := []string{"m", "100% %s done", strings.Repeat("word ", 1000), strings.Repeat("seventy thousand ", 4200), "\nbody three words here", "fix: x", "a\tb", "two\nlines", "s\nthree word line", " lead", "trail ", "é", "x: y: z"}
+	msgs := []string{"m", "fix: x", "a\tb", "two\nlines", "s\nthree word line", "\nbody three words here", "100% %s done", strings.Repeat("word ", 1000), strings.Repeat("seventy thousand ", 4200), " lead", "trail ", "é", "x: y: z"}
 	spec := &Spec{
 		Seeds: []Seed{{"S0", seedS0()}, {"S2", seedS2()}, {"chain12", seedChain(12)}, {"chain101", seedChain(101)}},
 		Depth: e.pick(3, 4),
@@ -208,6 +208,10 @@ func checkC11(e *RunEnv) *CheckResult {
 			a := n.Abs()
 			t := stateTags(a)
 			var steps []Step
+			msgs := msgs
+			if !e.Thorough() && n.Depth >= 1 {
+				msgs = msgs[:7] // quick: the full message alphabet at the first level, the sharpest seven deeper
+			}
 			content := fmt.Sprintf("edit %d\n", len(a.Objects))
 			if len(a.LogHEAD) > 10 {
 				// long journals: every position (incl. >= 10) is probed in each state; keep the fan-out small
